@@ -258,3 +258,63 @@ def kernel_independence(prog, latmax):
     compare("get_asr", "A", "C", lambda v: v, "the Asr school does not change Asr", expect_equal=False)
     res["witness"] = 1
     return finish(res, I, S, t0)
+
+
+def new_coords_wiring(prog, _):
+    """TopAstroDay::new_coords(coords) = from_ad(clone of the day's geocentric AstroDay, coords), always (C10: the substitute-latitude
+    recomputation re-derives the topocentric positions for the new coordinates on the same day)."""
+    t0 = time.time()
+    res = new_res("TopAstroDay::new_coords recomputes from_ad(day's geocentric ephemeris, new coordinates) on every path", ["TopAstroDay::new_coords"])
+    S = smt.Smt()
+    I = interp.Interp(prog, mode="sym", smt=S)
+    st = interp.State()
+    A = sym_astros()
+    lat, lon, elev = z3.Real("lat"), z3.Real("lon"), z3.Real("elev")
+    lat2, lon2, elev2 = z3.Real("lat2"), z3.Real("lon2"), z3.Real("elev2")
+    st.add([lat >= -90, lat <= 90, lat2 >= -90, lat2 <= 90, lon >= -180, lon <= 180, lon2 >= -180, lon2 <= 180])
+    tad = mk_tad(I, lat, lon, elev, [mk_astro(I, x["dra"], x["dec"], x["ra"], x["rsum"], x["sid"]) for x in A])
+    tc = st.alloc(tad)
+    coords2 = Struct("Coordinates", [Struct("Latitude", (lat2,)), Struct("Longitude", (lon2,)), Struct("Elevation", (elev2,))])
+    marker = Opaque("from_ad result")
+
+    def stub_from_ad(I2, st2, args, callee):
+        st2.log.append(("from_ad",) + tuple(args))
+        return [(None, ("ret", marker))]
+    I.stubs["from_ad"] = stub_from_ad
+    names = I.prog.structs["TopAstroDay"]
+    outs = I.run_body(prog.find_body("TopAstroDay::new_coords"), [Ref(tc, ()), coords2], st=st)
+
+    def mf(m):
+        return {"lat": mval(m, lat), "lat2": mval(m, lat2), "lon": mval(m, lon), "lon2": mval(m, lon2)}
+    for o in std_path_checks(res, I, S, outs, mf):
+        calls = [x for x in o.st.log if x[0] == "from_ad"]
+        ad0 = tad.fields[names.index("astro_day")]
+        ok = len(calls) == 1 and o.value is marker
+        if ok:
+            ad, cc = calls[0][1], calls[0][2]
+            ok = isinstance(ad, Struct) and ad.ty == "AstroDay" and all(a is b or (is_sym(a) and a.eq(b)) for a, b in zip(_flat(ad), _flat(ad0)))
+            ok = ok and cc.fields[0].fields[0] is lat2 and cc.fields[1].fields[0] is lon2 and cc.fields[2].fields[0] is elev2
+        if not ok:
+            r, m = S.check(o.st.pc, timeout_ms=20000, want_model=True)
+            if r == "sat":
+                res["cands"].append({"what": "new_coords does not recompute the topocentric positions from the day's geocentric ephemeris for the new coordinates",
+                                     "inputs": mf(m), "nearest_lat": True})
+            elif r == "unknown":
+                res["inconclusive"].append("new_coords path feasibility undecided")
+    return finish(res, I, S, t0)
+
+
+def _flat(v):
+    if isinstance(v, Struct):
+        out = []
+        for f in v.fields:
+            out += _flat(f)
+        return out
+    if isinstance(v, (VecV, Arr, Tup)):
+        out = []
+        for f in v.items:
+            out += _flat(f)
+        return out
+    if isinstance(v, Date):
+        return [v.rd]
+    return [v]
